@@ -237,9 +237,15 @@ def k3(ctx, rep, T):
                 check_lossy_binding(ctx, rep, T, be, fns, binds, lossy_occ, chars)
     rep.extra['evaluations'] = total
     # struct-variant helper structs carry the variant's fields unchanged
-    d = ctx.fn('Language::write_types_for_anonymous_structs')
+    # (inlined view: the RustStruct literal may sit in a helper that is handed the variant's fields)
+    d = ctx.fnx('Language::write_types_for_anonymous_structs', file='language/mod.rs')
     st = [s for s in d['structs'] if s['path'].split('::')[-1] == 'RustStruct']
-    ok = bool(st) and 'fields' in st[0]['v']['fields'] and vt.show(vt.strip(st[0]['v']['fields']['fields'])).endswith('.fields') or (bool(st) and 'AnonymousStruct' in vt.show(st[0]['v']['fields'].get('fields')))
+    fv = st[0]['v']['fields'].get('fields') if st else None
+    core_v = vt.unvar(fv)
+    while isinstance(core_v, dict) and ((core_v.get('k') == 'call' and core_v.get('recv') is not None and core_v.get('f') in ('clone', 'to_vec', 'to_owned', 'cloned', 'iter', 'collect', 'into_iter') and not core_v.get('args')) or core_v.get('k') in ('ref', 'deref', 'paren')):
+        core_v = vt.unvar(core_v['recv'] if core_v.get('k') == 'call' else core_v.get('v'))
+    from .. import coverage
+    ok = bool(st) and (coverage.is_payload_of(core_v, 'RustEnumVariant', 'AnonymousStruct', 'fields') or vt.show(vt.strip(fv)).endswith('.fields') or 'AnonymousStruct' in vt.show(fv))
     rep.check(ok, 'K3', 'default:helper-struct-fields-unchanged', 'helper struct gets fields.clone()', 'write_types_for_anonymous_structs does not pass the variant fields unchanged to write_struct', {'file': d['file'], 'line': d['line']})
 
 
